@@ -3,6 +3,7 @@
 EXTENDS Config
 CONSTANT MaxOpts
 KeySets == {{"a"}, {"a", "b"}, {"b", "c.x"}, {"c.x", "c.y"}, {}}
-Opts == [kind : {"add", "set"}, lk : {"raw", "args"}, keys : KeySets] \cup [kind : {"file"}, lk : {"file"}, keys : KeySets]
+Vals == {1, 2}
+Opts == [kind : {"add", "set"}, lk : {"raw", "args"}, keys : KeySets, val : Vals] \cup [kind : {"file"}, lk : {"file"}, keys : KeySets, val : Vals]
 MCInit == \E n \in 0..MaxOpts : \E o \in [1..n -> Opts] : InitWith([opts |-> o])
 =============================================================================
